@@ -366,6 +366,18 @@ func genE2ELifecycle(r *Rng, free bool) *E2ECase {
 			ec.Ops = append(ec.Ops, genQueries(r, all, 2, ec.Stream)...)
 		case x < 68:
 			ec.Ops = append(ec.Ops, E2EOp{K: "describe"}, E2EOp{K: "serve"}, E2EOp{K: "selagain"})
+		case x >= 88 && x < 96:
+			// clean restart, more writes (into the same chunk and beyond), CRASH, start: ranges over the second run
+			ec.Ops = append(ec.Ops, E2EOp{K: "restart"})
+			w := tsProcess(r, "mono", r.PickInt(1, 10, 251), &cur)
+			ec.Ops = append(ec.Ops, E2EOp{K: "batch", Ts: w})
+			all = append(all, w...)
+			ec.Ops = append(ec.Ops, E2EOp{K: "drop", Keep: true})
+			mn, mx := minmax(w)
+			ec.Ops = append(ec.Ops, E2EOp{K: "read", O1: i64p(mn), O2: i64p(mx)}, E2EOp{K: "read", O1: i64p(w[len(w)/2])})
+			if !free && r.Chance(1, 2) {
+				ec.Ops = append(ec.Ops, E2EOp{K: "serve"})
+			}
 		case x >= 80 && x < 88 && !free && ec.ChunkRecs > 0 && len(all) > 2*ec.ChunkRecs:
 			// a query left at a saved position; the oldest chunk is TRUNCATEd away (a rebuild of it may be queued: the
 			// rebuilder finds its chunk gone); the query is continued
@@ -664,6 +676,26 @@ func corpus() []Replay {
 	out = append(out, Replay{Kind: "e2e", E2E: &E2ECase{Stream: "dropwrite", Ops: []E2EOp{
 		{K: "batch", Ts: rep(100, 1)}, {K: "drop"}, {K: "batch", Ts: rep(200, 10)}, {K: "read", O1: i64p(100), O2: i64p(100)},
 		{K: "read", O1: i64p(50), O2: i64p(150)}, {K: "serve"}, {K: "read", O1: i64p(100), O2: i64p(100)}}}})
+	// (u) a CRASH after a clean restart and more writes into the same chunk: 300 x 100, clean restart (snapshot written,
+	// loaded and consumed), 10 x 200 into the same chunk, crash (no close(): whatever snapshot was on disk stays), start:
+	// the events of the second run must be found (C02_snapshot_used_once / C02_kept_snapshot_refuted)
+	out = append(out, Replay{Kind: "e2e", E2E: &E2ECase{Stream: "lifecycle", Ops: []E2EOp{
+		{K: "batch", Ts: rep(100, 300)}, {K: "restart"}, {K: "batch", Ts: rep(200, 10)}, {K: "drop", Keep: true},
+		{K: "read", O1: i64p(200), O2: i64p(200)}, {K: "read", O1: i64p(150), O2: i64p(250)}, {K: "read", O1: i64p(100), O2: i64p(100)},
+		{K: "batch", Ts: rep(300, 5)}, {K: "restart"}, {K: "batch", Ts: rep(400, 5)}, {K: "drop", Keep: true}, {K: "drop", Keep: true},
+		{K: "read", O1: i64p(350), O2: i64p(450)}, {K: "serve"}, {K: "read", O1: i64p(400)}}}})
+	// (v) a chunk whose FIRST record is newer than its last one (500, 499, ... 400), learnt by SyncChunks after an index
+	// loss: lightFill swaps the two ends, the hull is [400,500]; ranges around the corrected hull
+	{
+		ts := make([]int64, 101)
+		for i := range ts {
+			ts[i] = 500 - int64(i)
+		}
+		out = append(out, Replay{Kind: "e2e", E2E: &E2ECase{Stream: "jitter", Ops: []E2EOp{
+			{K: "batch", Ts: ts}, {K: "drop", Keep: true}, {K: "sync"},
+			{K: "read", O1: i64p(450), O2: i64p(500)}, {K: "read", O1: i64p(401), O2: i64p(600)}, {K: "read", O1: i64p(500), O2: i64p(500)},
+			{K: "read", O1: i64p(300), O2: i64p(400)}, {K: "read", O1: i64p(501), O2: i64p(600)}}}})
+	}
 	// (n) a RANGE query over two partitions (cursor.newCursor mixes one range iterator per partition)
 	{
 		var a, b []int64
@@ -1004,6 +1036,27 @@ func runE2E(rp Replay) (*Case, error) {
 		}
 		return e.all[lo : lo+e.cnts[o-1]]
 	}
+	// A hull the index reports always contains the chunk's FIRST and LAST record, whatever the order of the timestamps:
+	// it comes from write notifications (exact min/max of every batch), from a rebuild scan, from lightFill (first and
+	// last record, swapped when the first is the newer one), or it is unlimited (partial mark). "" = holds for every chunk.
+	hullMissesEnds := func() string {
+		for o := e.gone + 1; o <= len(e.cids); o++ {
+			data := chunkData(o)
+			if len(data) == 0 {
+				continue
+			}
+			ri, err := e.srv.TsIndexer.GetRecordsInfo(e.src, e.cids[o-1])
+			if err != nil {
+				continue
+			}
+			for _, ts := range []int64{data[0], data[len(data)-1]} {
+				if ts < ri.MinTs || ts > ri.MaxTs {
+					return fmt.Sprintf("chunk %d: the hull [%d,%d] does not contain the timestamp %d of its first/last record (first %d, last %d)", o, ri.MinTs, ri.MaxTs, ts, data[0], data[len(data)-1])
+				}
+			}
+		}
+		return ""
+	}
 	// does the TsIndexer's current view of the chunk (hull, index records if any) bound the chunk's timestamps
 	// the way the selector relies on ("" = yes)
 	chunkConsistent := func(o int) string {
@@ -1156,15 +1209,34 @@ func runE2E(rp Replay) (*Case, error) {
 				return nil, err
 			}
 			e.srv.TsIndexer.SyncChunks(e.ctx, e.src, cks)
+			if msg := hullMissesEnds(); msg != "" && idxViol == nil {
+				idxViol = &Violation{Class: "hull-misses-end-records", Detail: "after SyncChunks: " + msg}
+			}
 			syncedSinceDrop = true
 			gop = "ESync"
 		case "drop":
 			if e.src == "" {
 				continue
 			}
+			// Keep = a CRASH: what the kill of the process leaves behind. cindex.dat is as it was on disk while the server ran
+			// (init() removes the snapshot once it is loaded, so there is none; a server that kept it would find the snapshot
+			// of the last clean shutdown again), the .tidx files stay. The clean Stop below writes a new snapshot, which is
+			// replaced by what was there before.
+			var oldSnap []byte
+			hadSnap := false
+			if op.Keep {
+				if b, err := ioutil.ReadFile(filepath.Join(e.dir, "cindex", "cindex.dat")); err == nil {
+					oldSnap, hadSnap = b, true
+				}
+			}
 			e.srv.Stop()
 			e.srv = nil
-			if op.Garble {
+			if op.Keep && hadSnap {
+				if err := ioutil.WriteFile(filepath.Join(e.dir, "cindex", "cindex.dat"), oldSnap, 0640); err != nil {
+					return nil, err
+				}
+				tags = append(tags, "e2e-crash-finds-old-snapshot")
+			} else if op.Garble {
 				if err := ioutil.WriteFile(filepath.Join(e.dir, "cindex", "cindex.dat"), []byte("{\"p\": [ {\"Id\": 12, \"MinTs\""), 0640); err != nil {
 					return nil, err
 				}
@@ -1486,6 +1558,10 @@ func runE2E(rp Replay) (*Case, error) {
 				// taken from write notifications, hull from the first/last record). It does not
 				// explain events lost from a chunk whose index the rebuilder has just built by scanning it, nor from a
 				// chunk whose hull and index, as the TsIndexer reports them now, do bound its timestamps.
+				if cls == "range-incomplete-non-monotone-timestamps" && hullMissesEnds() != "" {
+					// the recorded class does not cover a hull that misses the chunk's own first or last record
+					cls = "range-incomplete-hull-misses-end-records"
+				}
 				if cls == "range-incomplete-non-monotone-timestamps" {
 					st := make([]int, len(e.cnts)+1)
 					for k, c := range e.cnts {
